@@ -3,7 +3,11 @@
    hand-maintained coq/PANIC_MAP.json after validation). Both files are
    rewritten by ./check C01, so this file is re-checked against the current
    tree on every run: a new, moved or un-guarded site has no entry and
-   [every_panic_site_discharged] stops compiling. *)
+   [every_panic_site_discharged] stops compiling.
+   The citations of the map are resolved by Coq in the generated file
+   Gen.PanicCites (one `Check Props.Cnn.<name>.` per cited theorem), compiled by
+   the check after props/C01.vo; the former lemma "every disposition string is
+   non-empty" said nothing and is gone. *)
 From Coq Require Import String List Bool.
 Require Import Gen.PanicSites Gen.PanicMap.
 Import ListNotations.
@@ -11,18 +15,7 @@ Import ListNotations.
 Definition covered (s : site) : bool :=
   existsb (fun e => String.eqb (fst e) (s_id s)) panic_map.
 
-Definition justified (e : string * disposition) : bool :=
-  match snd e with
-  | DischargedBy t => negb (String.eqb t "")
-  | Guarded g => negb (String.eqb g "")
-  | OutsideModel r => negb (String.eqb r "")
-  | ObservedOnly r => negb (String.eqb r "")
-  end.
-
 Lemma every_panic_site_discharged : forallb covered sites = true.
-Proof. vm_compute. reflexivity. Qed.
-
-Lemma every_map_entry_justified : forallb justified panic_map = true.
 Proof. vm_compute. reflexivity. Qed.
 
 Lemma no_anchored_file_missing : anchored_files_missing = [].
